@@ -12,7 +12,7 @@ CLAIMED = {
  "C20": dict(
    category="exploration", design="DESIGN.md §3 C20",
    technique="runtime monitoring: exit-status/stderr/watchdog oracle over an enumerated input-mutation family run through the real binaries",
-   text="Every member of a deterministic mutation family (word truncations, token delete/dup/swap, indentation, doubled blank / TAB between words, trailing blank / CR, structural JSON/XML damage, garbage files, configurations that only exist in the raw / IPv6 part next to an empty main file; each text at all four argument positions) derived from all configuration texts of the repository's test data, the valid pairs of all generators plus mutations of some of them, and info-file variants in live sessions of all device types (drc and do-approve, reachable and unreachable device) is executed by the real binaries; thorough enumerates the whole family, quick a seeded sample. A crash site (top repository frame + panic class) not listed in known_findings.json is a violation.",
+   text="Every member of a deterministic mutation family (word truncations, token delete/dup/swap, indentation, doubled blank / TAB between words, trailing blank / CR, structural JSON/XML damage, garbage files, configurations that only exist in the raw / IPv6 part next to an empty main file, every word-prefix of keyword-rich ACL lines in every tier; each text at all four argument positions) derived from all configuration texts of the repository's test data, the valid pairs of all generators plus mutations of some of them, and info-file variants in live sessions of all device types (drc and do-approve, reachable and unreachable device) is executed by the real binaries; thorough enumerates the whole family, quick a seeded sample. A crash site (top repository frame + panic class) not listed in known_findings.json is a violation.",
    note="Trusted: Go runtime prints 'panic:'/'fatal error:' on crashes; 20 s watchdog re-checked serially with 120 s. Coverage is the enumerated family only, not all byte strings."),
 }
 
@@ -38,7 +38,7 @@ CLAIMED.update({
  "C19": dict(
    category="fault_enumeration", design="DESIGN.md §3 C19",
    technique="runtime monitoring with fault injection: BASH_ENV DEBUG-trap kill at every simple command of the unmodified newpolicy.sh, SIGKILL while parked in children, concurrent invocations; file-tree monitor after every event",
-   text="For ten commit histories (incl. the digit boundary p9/p10) the real newpolicy.sh is killed at every simple command of its reference run (thorough; quick: every 3rd step of three histories), killed (SIGKILL) or signalled (TERM, INT, HUP to the script only) from outside while parked inside git clone / the compiler stub, raced by 1-3 contenders, disturbed by a good or bad commit pushed while its compiler works, and run in the three-process schedule 'second run holds an open lock file handle when the first finishes, third run arrives while the second works' (the injector can hold the script in front of a chosen command); after every event the monitor checks current absent-or-complete-and-compiling, source of current = the compiled revision, increasing numbers, non-interleaved compiler runs, and that one undisturbed run makes the newest compiling revision current.",
+   text="For ten commit histories (incl. the digit boundary p9/p10) the real newpolicy.sh is killed at every simple command of its reference run (thorough; quick: every 3rd step of three histories), killed (SIGKILL) or signalled (TERM, INT, HUP to the script only) from outside while parked inside git clone / the compiler stub, raced by 1-3 contenders, disturbed by a good or bad commit pushed while its compiler works, run on a non-compiling revision while the mail system refuses every message, and run in the three-process schedule 'second run holds an open lock file handle when the first finishes, third run arrives while the second works' (the injector can hold the script in front of a chosen command); after every event the monitor checks current absent-or-complete-and-compiling, source of current = the compiled revision, increasing numbers, non-interleaved compiler runs, and that one undisturbed run makes the newest compiling revision current.",
    note="Compiler and mail are stubs, sudo branch not taken; kills happen on simple-command boundaries and inside the two long-running children only; liveness is the bounded one-run form."),
 })
 
@@ -46,17 +46,17 @@ CLAIMED.update({
  "C06": dict(
    category="fault_enumeration", design="DESIGN.md §3 C06",
    technique="runtime monitoring: classified transcript of stateful device simulators over the enumerated product of interlock conditions",
-   text="The full product device type x front-end x 3 pending-change scenarios (PAN-OS incl. a device with two vsys of which only the first lacks the marker) x 6 hostname variants (Linux and ASA also: the name query fails / answers with an empty line) x 7 marker variants (two with a banner regexp that starts with '#') x 7 PAN-OS HA constellations (about 2200 live runs) is executed against the simulators; where an interlock condition holds the transcript must hold no config-change and no save/commit event, exit != 0 and an ERROR>>> diagnostic, otherwise approve must apply exactly the reference run's changes and save.",
+   text="The full product device type x front-end x 3 pending-change scenarios (PAN-OS incl. devices with two vsys of which only the first lacks the marker, with changes in both or only in the second) x 6 hostname variants (Linux and ASA also: the name query fails / answers with an empty line) x 7 marker variants (two with a banner regexp that starts with '#') x 7 PAN-OS HA constellations (about 2200 live runs) is executed against the simulators; where an interlock condition holds the transcript must hold no config-change and no save/commit event, exit != 0 and an ERROR>>> diagnostic, otherwise approve must apply exactly the reference run's changes and save.",
    note="Simulators are written from the dialogue the tool expects and from device documentation; NSX reports neither hostname nor marker nor HA state, so only the works-normally clause applies there. A 1-in-25 sample runs under -race."),
  "C09": dict(
    category="fault_enumeration", design="DESIGN.md §3 C09",
    technique="runtime monitoring with peer fault injection at every dialogue position; transcript + exit status + status/history oracle",
-   text="For 5 device types x {drc, do-approve approve, do-approve compare} x 3 scenarios a fault of every kind (error text, unexpected output, tolerated notice lines followed by an error line, wrong echo, silent exit status, close, stall, death of the ssh client while a prompt is on its way, HTTP 4xx/5xx with and without body, stall in the middle of a body (who gives up first is recorded), malformed body, status=error, commit/job FAIL) is injected at every ordinal position of the reference dialogue (PAN-OS incl. a two-vsys device, ASA incl. a device that needs session set-up), plus, for IOS, an error at a change command whose echo a reload banner interrupts (4 banner forms x 2:00 / 1:00) and seven write-memory variants (NVRAM question then OK / too large / open failed, too large, no [OK], busy once, busy always); after a delivered fault no later change/save may be sent, exit != 0, status FAILED/DIFF and history END: FAILED (two thirds of the do-approve runs start from the status file of earlier runs); on every run status OK requires no delivered fault, all commands accepted and a confirmed save.",
+   text="For 5 device types x {drc, do-approve approve, do-approve compare} x 3 scenarios a fault of every kind (error text, unexpected output, tolerated notice lines followed by an error line, wrong echo, silent exit status, close, stall, death of the ssh client while a prompt is on its way, HTTP 4xx/5xx with and without body, stall in the middle of a body (who gives up first is recorded), malformed body, status=error, commit/job FAIL, commit answered with success but without job) is injected at every ordinal position of the reference dialogue (PAN-OS incl. a two-vsys device, ASA incl. a device that needs session set-up), plus, for IOS, an error at a change command whose echo a reload banner interrupts (4 banner forms x 2:00 / 1:00) and seven write-memory variants (NVRAM question then OK / too large / open failed, too large, no [OK], busy once, busy always); after a delivered fault no later change/save may be sent, exit != 0, status FAILED/DIFF and history END: FAILED (two thirds of the do-approve runs start from the status file of earlier runs); on every run status OK requires no delivered fault, all commands accepted and a confirmed save.",
    note="Output-type faults count only at steps whose answer is a verdict (login, hostname, retrieval, change, guard, save); the second half of a joined line cannot be stopped; dropped HTTP connections stay dead. Quick samples stalls (1 s each) at every 5th position."),
  "C11": dict(
    category="fault_enumeration", design="DESIGN.md §3 C11",
    technique="runtime monitoring: absence of change/save events in the simulator transcript of compare runs, with faults at every position and interlock variants",
-   text="Compare runs (drc -C, do-approve compare) for all device types, 3 scenarios with differences, 5 interlock variants, an ASA whose 'enable' asks to define a new enable password, an ASA with 'names' enabled, a PAN-OS candidate configuration holding uncommitted nodes of the login user, drc option sets (no log directory, quiet), other spellings of the compare verb and flag (Compare, COMPARE, --compare, -qC, --compare=true) and a fault of each kind at every dialogue position; the transcript must contain no config-change and no save/commit event, an IOS compare must not enter configuration mode (foreign pending reload whose banner lands inside the configuration listing included), and no file may be copied to the device (scp hook).",
+   text="Compare runs (drc -C, do-approve compare) for all device types, 3 scenarios with differences, 5 interlock variants, an ASA whose 'enable' asks to define a new enable password, an ASA with 'names' enabled, an ASA that asks about anonymous error reporting when configuration mode is entered, a PAN-OS candidate configuration holding uncommitted nodes of the login user, drc option sets (no log directory, quiet), other spellings of the compare verb and flag (Compare, COMPARE, --compare, -qC, --compare=true) and a fault of each kind at every dialogue position; the transcript must contain no config-change and no save/commit event, an IOS compare must not enter configuration mode (foreign pending reload whose banner lands inside the configuration listing included), and no file may be copied to the device (scp hook).",
    note="State is initial config + accepted change events, so unchanged state equals no accepted change event. ASA terminal width is a session setting."),
 })
 
@@ -100,7 +100,7 @@ CLAIMED.update({
 CLAIMED.update({
  "C10": dict(category="fault_enumeration", design="DESIGN.md §3 C10",
    technique="runtime monitoring with crash-point enumeration: every prefix of the emitted script is applied to the device model, the real drc is re-run on the dumped hybrid state and its script executed and judged by the engine monitors",
-   text="For seeded pairs of all five device types every prefix length of the command sequence (joined entries split, cuts inside sub-mode blocks) yields a hybrid device state; drc is run again on it with the same target; the tool must accept it, the new script must be executable, reach a state equivalent to the target and compare clean afterwards. quick 400 pairs per type, thorough 3000. A tool crash on a hybrid state counts as not resumable. Class keys of aborts name the situation in the hybrid state (known limitation: crypto map entry left without peer).",
+   text="For seeded pairs of all five device types every prefix length of the command sequence (joined entries split, cuts inside sub-mode blocks) yields a hybrid device state; drc is run again on it with the same target; the tool must accept it, the new script must be executable, reach a state equivalent to the target and compare clean afterwards. quick 400 pairs per type, thorough 3000. A tool crash on a hybrid state counts as not resumable. Class keys of aborts name the situation in the hybrid state (known limitation: crypto map entry left without peer). Reproducer pairs under /verif/fixed are cut at every prefix too.",
    note="A crash leaves exactly the first k commands applied; PAN-OS prefixes are candidate-config states; Linux iptables load is atomic."),
  "C14": dict(category="exploration", design="DESIGN.md §3 C14",
    technique="runtime monitoring: step monitor evaluating every packet of a small universe against the bound ACLs (and the routed destinations) after every executed script entry",
